@@ -37,6 +37,7 @@ __all__ = [
     "translate",
 ]
 
+import errno
 import logging
 import os.path
 import re
@@ -566,7 +567,9 @@ class IgnoreFilterManager:
         except OSError as e:
             # On Windows, opening a path that contains a symlink can fail with
             # errno 22 (Invalid argument) when the symlink points outside the repo
-            if e.errno == 22:
+            # A symlink that leads back to itself (ELOOP) has no .gitignore
+            # below it either.
+            if e.errno in (22, errno.ELOOP):
                 self._path_filters[path] = None
             else:
                 raise
